@@ -18,6 +18,7 @@ EXPLANATION = (
     "t.ppf(1-alpha/2, N-1), interval gain -/+ t_crit*s/sqrt N; W: signed ranks of |d|, T=min(R+,R-), mean n(n+1)/4, "
     "variance [n(n+1)(2n+1) - sum t(t^2-1)/2]/24, p = 2*sf(|z|)); D4 roles at the public functions (per-event rates "
     "and totals of forecast 1 and 2 from target_event_rates on the same catalog, N from the catalog / active bins, "
+    "D4.double no narrowing of per-event rates and totals. "
     "result fields in the documented slots). NOT decided: numerical agreement with the paper's tables, scipy's "
     "t.ppf / rankdata / norm.sf.")
 CLAUSES = {'D1': 'definedness', 'D2': 'swap (anti)symmetry on normal forms', 'D3': 'Eq. 17/18 and signed-rank identities',
